@@ -91,7 +91,7 @@ func runC11(r *Run) {
 	// ---- snapshot
 	sn := r.Rule("C11.snapshot", "the bytes stored in the transaction at Start are a copy of msg.Raw (append into the transaction's own buffer), never msg.Raw itself", 1)
 	{
-		n := 0
+		n, nCopy := 0, 0
 		for _, a := range fieldAccesses(m.Start, m.TxRaw) {
 			if a.Kind != "store" {
 				continue
@@ -103,17 +103,24 @@ func runC11(r *Run) {
 				sn.Violation(m.Start, instrPos(st), "raw = "+exprDepth(st.Val, 0), "the transaction retains the caller's message buffer: retransmissions carry whatever the caller writes into it afterwards")
 				continue
 			}
-			// must be append(own[:0], msg.Raw...)
+			// a truncation of the transaction's own buffer (first half of `x = x[:0]; x = append(x, raw...)`)
+			if zeroLenValue(st.Val, 0) {
+				continue
+			}
+			// must be append(<empty own buffer>, msg.Raw...)
 			ap, ok := st.Val.(*ssa.Call)
 			if !ok || !isBuiltinCall(ap, "append") || len(ap.Call.Args) != 2 || !valueIsLoadOfField(ap.Call.Args[1], rawMsg) {
 				sn.Violation(m.Start, instrPos(st), "raw = "+exprDepth(st.Val, 0), "the stored request is not a full copy of msg.Raw")
 				continue
 			}
-			if sl, ok := ap.Call.Args[0].(*ssa.Slice); !ok || sl.High == nil {
+			if !zeroLenValue(ap.Call.Args[0], 0) {
 				sn.Violation(m.Start, instrPos(st), "raw = "+exprDepth(st.Val, 0), "the copy is appended to previous content")
-			} else if c, ok := constInt(sl.High); !ok || c != 0 {
-				sn.Violation(m.Start, instrPos(st), "raw = "+exprDepth(st.Val, 0), "the copy is appended to previous content")
+				continue
 			}
+			nCopy++
+		}
+		if n > 0 && nCopy == 0 {
+			sn.Violation(m.Start, m.Start.Pos(), "no snapshot", "Start truncates the transaction's buffer but never copies the request into it")
 		}
 		if n == 0 {
 			sn.Violation(m.Start, m.Start.Pos(), "no snapshot", "Start does not store the request bytes in the transaction")
@@ -146,10 +153,8 @@ func runC11(r *Run) {
 		if aliasesField(val, m.TxRaw, 0) {
 			why = "the stored request itself is written after the transaction has been re-published: a concurrent completion recycles the object and the next Start overwrites these bytes"
 		} else if ap, isAp := val.(*ssa.Call); isAp && isBuiltinCall(ap, "append") && len(ap.Call.Args) == 2 && valueIsLoadOfField(ap.Call.Args[1], m.TxRaw) {
-			if sl, isSl := ap.Call.Args[0].(*ssa.Slice); isSl && sl.High != nil {
-				if c, isC := constInt(sl.High); isC && c == 0 {
-					ok = true
-				}
+			if zeroLenValue(ap.Call.Args[0], 0) {
+				ok = true
 			}
 			// made before re-publication
 			eachInstr(m.Callback, func(b *ssa.BasicBlock, i int, in ssa.Instruction) {
@@ -423,37 +428,88 @@ func runC11(r *Run) {
 				rt.Violation(m.SetRTO, instrPos(a.Instr), "plain store to rto", "data race with Start's atomic load")
 			}
 		}
-		// formula
-		nt := m.NextTimeout
-		r.Analysed(nt)
-		fOK := false
-		desc := ""
-		eachInstr(nt, func(b *ssa.BasicBlock, i int, in ssa.Instruction) {
-			if c, ok := in.(*ssa.Call); ok && isMethodCall(c, "time", "Time", "Add") && len(c.Call.Args) == 2 {
-				okf, d := isAttemptFormula(c.Call.Args[1], m.TxAttempt, m.TxRTO)
-				desc = d
-				if okf {
-					if _, isP := c.Call.Args[0].(*ssa.Parameter); isP {
-						fOK = true
+		// formula: every deadline handed to the agent's Start is <time of this transmission> + (attempt+1)*rto
+		// of the transaction, computed directly or through a helper that returns param.Add(formula)
+		isNow := func(v ssa.Value) bool {
+			v = deref(stripConvs(v))
+			if c, ok := v.(*ssa.Call); ok && c.Call.IsInvoke() && c.Call.Method.Name() == "Now" {
+				return true
+			}
+			if ld, ok := v.(*ssa.UnOp); ok && ld.Op == token.MUL {
+				if _, f := addrField(ld.X); f == m.TxStart && f != nil {
+					if st := reachingFieldStore(p, ld); st != nil {
+						if c, ok := deref(stripConvs(st.Val)).(*ssa.Call); ok && c.Call.IsInvoke() && c.Call.Method.Name() == "Now" {
+							return true
+						}
 					}
 				}
 			}
-		})
-		rt.Instance("nextTimeout formula", true, map[string]string{"formula": "now + " + desc})
-		if !fOK {
-			rt.Violation(nt, nt.Pos(), "deadline formula "+desc, "the next deadline must be now + (attempt+1)*rto with the transaction's own attempt and rto")
+			return false
 		}
-		// both Start and the callback compute deadlines with it
-		for _, fn := range []*ssa.Function{m.Start, m.Callback} {
-			uses := false
+		deadlineOK := func(v ssa.Value) (bool, string) {
+			c, ok := deref(v).(*ssa.Call)
+			if !ok {
+				return false, exprDepth(v, 0)
+			}
+			if isMethodCall(c, "time", "Time", "Add") && len(c.Call.Args) == 2 {
+				okf, d := isAttemptFormula(c.Call.Args[1], m.TxAttempt, m.TxRTO)
+				if okf && isNow(c.Call.Args[0]) {
+					return true, "now + " + d
+				}
+				return false, exprDepth(c.Call.Args[0], 0) + " + " + d
+			}
+			if g := c.Call.StaticCallee(); g != nil && p.isLibFn(g) && g.Blocks != nil && g.Signature.Results().Len() == 1 {
+				r.Analysed(g)
+				all := true
+				desc := ""
+				rets := returnsOf(g)
+				for _, ret := range rets {
+					ac, ok := deref(ret.Results[0]).(*ssa.Call)
+					if !ok || !isMethodCall(ac, "time", "Time", "Add") || len(ac.Call.Args) != 2 {
+						all = false
+						continue
+					}
+					okf, d := isAttemptFormula(ac.Call.Args[1], m.TxAttempt, m.TxRTO)
+					desc = d
+					pa, isP := ac.Call.Args[0].(*ssa.Parameter)
+					if !okf || !isP {
+						all = false
+						desc = exprDepth(ac.Call.Args[0], 0) + " + " + d
+						continue
+					}
+					pi := paramIndex(g, pa)
+					if pi < 0 || pi >= len(c.Call.Args) || !isNow(c.Call.Args[pi]) {
+						all = false
+						desc = "base time " + exprDepth(c.Call.Args[pi], 0) + " + " + d
+					}
+				}
+				if all && len(rets) > 0 {
+					return true, "now + " + desc
+				}
+				return false, desc
+			}
+			return false, exprDepth(v, 0)
+		}
+		nSites := 0
+		for _, fn := range p.LibFuncs() {
 			eachInstr(fn, func(b *ssa.BasicBlock, i int, in ssa.Instruction) {
-				if callsFn(in, nt) {
-					uses = true
+				if !ifaceCallOnField(in, m.Agent, "Start") {
+					return
+				}
+				cc := in.(ssa.CallInstruction).Common()
+				if len(cc.Args) != 2 {
+					return
+				}
+				nSites++
+				okd, desc := deadlineOK(cc.Args[1])
+				rt.Instance(fnName(fn)+"|deadline formula", true, map[string]string{"fn": fnName(fn), "formula": desc})
+				if !okd {
+					rt.Violation(fn, instrPos(in), "deadline formula "+desc, "the deadline handed to the agent must be the time of this transmission + (attempt+1)*rto with the transaction's own attempt and rto")
 				}
 			})
-			if !uses {
-				rt.Violation(fn, fn.Pos(), "deadline not from nextTimeout", fmt.Sprintf("%s does not compute the agent deadline with the transaction's formula", fnName(fn)))
-			}
+		}
+		if nSites < 2 {
+			rt.Violation(m.Start, m.Start.Pos(), "deadline sites", fmt.Sprintf("found %d agent Start sites, expected the initial transmission and the retransmission", nSites))
 		}
 	}
 	rt.Done()
